@@ -129,7 +129,21 @@ def wrap(kind, val):
         t = RecTable(val)
         t._sx_kind = kind
         return t
+    if isinstance(val, (types.BuiltinFunctionType, types.FunctionType)):
+        return _host_call(val)
     return val
+
+
+def _host_call(f):
+    """host functions are C code: symbolic int arguments are concretised (all values of a small domain, otherwise a
+    sample - the structure is then reported incomplete)"""
+    def call(*a, **kw):
+        from vxlib.symx.values import SymInt
+        a = [x.concretize('argument of host function %s' % getattr(f, '__name__', '?')) if isinstance(x, SymInt) else x for x in a]
+        kw = {k: (x.concretize('argument of host function') if isinstance(x, SymInt) else x) for k, x in kw.items()}
+        return f(*a, **kw)
+    call.__name__ = getattr(f, '__name__', 'host')
+    return call
 
 
 def _mk_enum(name, members, base=enum.IntEnum):
